@@ -28,32 +28,55 @@ TIERS = {
 READS = [(50, 2), (100, 5), (100, 4), (150, 5), (250, 10)]
 
 
+SCENARIOS = ["random", "short_reads_clustered_indel", "ambiguous_mnp", "random", "edge_variant", "structural"]
+
+
 def gen_plan(rng, tier, i, seed):
+    """Every batch walks through a fixed cycle of scenario families, so that the situations that need
+    something specific (indel next to another site under short reads, ambiguous catalogue resolved by
+    read phase only, variant on the edge of the mapped range, structural alleles) are always present."""
     cfg = TIERS[tier]
+    scen = SCENARIOS[i % len(SCENARIOS)]
     L, step = rng.choice(READS)
     o = WL.gene_opts(rng, small=True)
-    o["cluster"] = rng.random() < 0.5
-    if rng.random() < 0.3:
-        # ambiguous catalogue ({a}, {b}, {a,b}) rich in multi-nucleotide substitutions: only the read
-        # phase tells a/b apart from ab/reference
-        o["ambiguous"] = True
-        o["kinds"] = ["mnp", "mnp", "snp", "ins", "del"]
+    o["cluster"] = rng.random() < 0.3
+    if scen == "short_reads_clustered_indel":
+        L, step = 50, 2
+        o.update(cluster=True, n_variants=8, kinds=["snp", "snp", "ins", "ins", "del", "mnp"])
+    elif scen == "ambiguous_mnp":
+        L, step = rng.choice([(100, 5), (150, 5), (250, 10)])
+        o.update(ambiguous=True, kinds=["mnp", "mnp", "snp", "ins", "del"], gene_len=420)
+    elif scen == "edge_variant":
+        o.update(edge_variant=rng.choice(["last", "first", "both"]))
+    elif scen == "structural":
+        o.update(pseudo=True, deletion=True, lfusion=rng.random() < 0.7, rfusion=rng.random() < 0.7)
     world = W.gen_world(rng, 1, [o], dict(L=L, step=step), margin=max(200, L + 60))
     g = world["genes"][0]
     units = WL._gen_units(rng, g)
     amb = WL._ambiguous_pair(g)
-    if amb and rng.random() < 0.6:
+    normal = [a for a in g["alleles"] if a["kind"] == "normal"]
+    if scen == "ambiguous_mnp" and amb:
         a, b, ab, ref = amb
         units = rng.choice([[{"type": "normal", "allele": a}, {"type": "normal", "allele": b}],
                             [{"type": "normal", "allele": ab}, {"type": "normal", "allele": ref}]])
-    elif rng.random() < 0.25:
-        # the same haplotype on every copy (homozygous calls have their own code paths)
+    elif scen == "short_reads_clustered_indel":
+        # the same haplotype on every copy, preferably one that carries an insertion / deletion
+        indel = [a["name"] for a in normal if any(g["variants"][v]["kind"] in ("ins", "del") for v in a["vars"])]
+        pick = rng.choice(indel or [a["name"] for a in normal])
+        units = [{"type": "normal", "allele": pick}, {"type": "normal", "allele": pick}]
+        if rng.random() < 0.3:
+            units.append({"type": "extra", "allele": pick})
+    elif scen == "edge_variant":
+        edge = [a["name"] for a in normal if any(g["variants"][v].get("edge") for v in a["vars"])]
+        if edge:
+            units = [{"type": "normal", "allele": rng.choice(edge)}, {"type": "normal", "allele": rng.choice([a["name"] for a in normal])}]
+    elif rng.random() < 0.2:
         first = next((u for u in units if u["type"] == "normal"), None)
         if first:
             units = [dict(first), dict(first)] + [dict(first, type="extra") for u in units[2:]]
     smp = {"name": "s0", "genes": {g["name"]: units}, "phase_seed": rng.randint(0, 999),
            "paired": rng.random() < 0.4}
-    return {"world": world, "samples": {"s0": smp}, "build": rng.choice(["hg19", "hg19", "hg38"]),
+    return {"world": world, "samples": {"s0": smp}, "build": rng.choice(["hg19", "hg19", "hg38"]), "scenario": scen,
             "hashseed": rng.choice([0, 1, 2, 3]), "advs": [rng.randint(0, 10**9) for _ in range(cfg["advs"])],
             "shuffle": rng.choice([None, rng.randint(0, 10**6)]), "route": rng.choice(["bam", "yml"])}
 
@@ -212,6 +235,7 @@ def update_stats(acc, plan, out):
                     acc["variant_kinds"][g["variants"][v]["kind"]] += 1
         acc["strands"][g["strand"]] += 1
         acc["read_lengths"][plan["world"]["reads"]["L"]] += 1
+        acc.setdefault("scenarios", Counter())[plan.get("scenario", "random")] += 1
 
 
 def sample_view(plan, out):
@@ -235,7 +259,8 @@ def evidence(acc):
             "fault_kinds_fired": acc["fired"],
             "probes": {"unit_kinds": dict(acc["unit_kinds"]), "planted_variant_kinds": dict(acc["variant_kinds"]),
                        "strands": dict(acc["strands"]), "read_lengths": dict(acc["read_lengths"]),
-                       "runs_with_several_best_solutions": acc["multi_solution"], "runs_ending_in_error": acc["errors"]},
+                       "runs_with_several_best_solutions": acc["multi_solution"], "runs_ending_in_error": acc["errors"],
+                       "scenario_families_with_precondition": dict(acc.get("scenarios", {}))},
             "components": {"real": ["whole aldy pipeline incl. indelpost realignment", "CBC", "pysam"],
                            "stub": ["solver proxy (adversarial optimal vertex at every solve)", "stream seam "
                                     "(permuted delivery)", "exact-tiling read simulator"]},
